@@ -22,7 +22,21 @@ def buffered_sinks(cad):
             if MLW + '<' in ty and 'Mutex<' in ty:
                 adapter = ty[ty.index(MLW + '<') + len(MLW) + 1:].rstrip('>')
                 out.append((path, f['name'], adapter))
-    return sorted(out)
+    # the mutex-wrapped writer may sit in a private newtype (`struct SharedWriter(Mutex<MultiLineWriter<..>>)` with a `lock()`
+    # helper): the sink is then the struct that implements MetricSink and has the newtype as a field
+    sinks_ = set(i.get('self_adt') for i in cad.impls_of(SINK_TRAIT))
+    res = []
+    for path, fname, adapter in out:
+        if path in sinks_:
+            res.append((path, fname, adapter))
+            continue
+        holders = [(p2, f2['name']) for p2, a2 in cad.adts.items() if a2['kind'] == 'Struct' and p2 in sinks_
+                   for f2 in a2['variants'][0]['fields'] if type_head(f2['ty']) == path]
+        if len(holders) == 1 and len(cad.adts[path]['variants'][0]['fields']) == 1:
+            res.append((holders[0][0], holders[0][1], adapter))
+        else:
+            res.append((path, fname, adapter))
+    return sorted(res)
 
 
 def adapters(cad):
